@@ -54,7 +54,7 @@ REQUIRED_REACH = ["op:restrict", "op:remove_elements", "op:add", "op:matmul", "m
                   "oriented-tag-identical-judged", "join-nearly-coincident", "join-nearly-coincident:ulp-b",
                   "join-nearly-coincident:translate-back", "remove-duplicates-of-exploded-mesh",
                   "three-or-more-coincident-copies", "merged-facet-listed-from-both-sides",
-                  "oriented-tag-lists-a-facet-from-both-sides", "add-exploded-parts", "matmul-exploded-parts",
+                  "oriented-tag-lists-a-facet-from-both-sides", "add-exploded-parts", "matmul-exploded-parts", "matmul-chained",
                   "tagged-operands:add", "tagged-operands:matmul", "tagged-operands:extrude",
                   "tagged-operands:to_meshtet", "input-with-unused-vertices:from-matmul",
                   "input-with-unused-vertices:inserted", "unused-input:restrict", "unused-input:trace",
@@ -220,7 +220,7 @@ def fam_matmul(ctx, k):
         tt = np.hstack([t[list(r)] for r in ((0, 1, 3, 4), (0, 3, 2, 4), (2, 3, 4, 6), (3, 4, 6, 7), (3, 4, 5, 7),
                                              (1, 3, 4, 5))])
         parts[j] = St(skfem.MeshTet1(np.asarray(parts[j].mesh.p).copy(), tt), "tet", 1)
-    form = "mesh" if nparts == 2 and k % 4 < 2 else ("rlist" if k % 4 == 3 else "list")
+    form = "mesh" if nparts == 2 and k % 4 < 2 else ("rlist" if k % 4 == 3 else ("chain" if nparts > 2 and k % 4 == 1 else "list"))
     if k % 5 == 3 and all(p_.nt <= 150 for p_ in parts):
         parts = [O.exploded(rng, p_, tags=False)[0] for p_ in parts]
         ctx.reached("join-exploded-parts")
